@@ -128,6 +128,11 @@ EXTRA_BODY = [
     {"anyOf": [{"type": "string", "minLength": 4}, {"type": "string", "pattern": "^[a-z]+$"}], "maxLength": 3},
     {"allOf": [{"type": "object", "properties": {"a": {"type": "integer"}}, "required": ["a"]}, {"type": "object", "properties": {"b": {"type": "string"}}, "required": ["b"]}]},
     {"type": "object", "nullable": True, "properties": {"x": {"type": "integer"}}, "required": ["x"]},
+    # size bounds next to required / optional properties, one-sided and two-sided
+    {"type": "object", "properties": {"a": {"type": "integer"}, "b": {"type": "string"}, "c": {"type": "boolean"}}, "required": ["a"], "minProperties": 2},
+    {"type": "object", "properties": {"a": {"type": "integer"}, "b": {"type": "string"}, "c": {"type": "boolean"}}, "minProperties": 2},
+    {"type": "object", "properties": {"a": {"type": "integer"}, "b": {"type": "string"}, "c": {"type": "boolean"}}, "required": ["a"], "maxProperties": 2},
+    {"type": "object", "properties": {"a": {"type": "integer"}, "b": {"type": "string"}, "c": {"type": "boolean"}}, "required": ["a", "b"], "minProperties": 3, "maxProperties": 3},
 ]
 
 
@@ -390,13 +395,24 @@ def run_shard(spec, emit):
                 op["consumes"] = ["application/json"]
         else:
             doc = {"openapi": "3.0.2" if version == "3.0" else "3.1.0", "info": {"title": "t", "version": "1"}, "paths": {template: {method: op}}}
+        declared, bodies, _, _ = declared_parameters(doc, version)
+        documented = {method.upper()}
+        if rng.random() < 0.3:
+            # more than one documented method, the path item possibly behind a reference
+            item = doc["paths"][template]
+            item["put" if method != "put" else "patch"] = {"responses": {"200": {"description": "ok"}}}
+            item["delete"] = {"responses": {"200": {"description": "ok"}}}
+            documented = {m.upper() for m in item}
+            if rng.random() < 0.6:
+                doc["x-path-items"] = {"Shared": item}
+                doc["paths"][template] = {"$ref": "#/x-path-items/Shared"}
+                emit.count("path_items_behind_reference")
         try:
             schema = schemathesis.openapi.from_dict(doc)
-            operation = next(r.ok() for r in schema.get_all_operations() if isinstance(r, Ok))
+            operation = next(r.ok() for r in schema.get_all_operations() if isinstance(r, Ok) and r.ok().method.upper() == method.upper())
         except Exception as exc:
             emit.viol("C03/generated-document-not-loadable", f"{type(exc).__name__}: {exc}"[:200], {"doc": doc})
             continue
-        declared, bodies, _, _ = declared_parameters(doc, version)
         validator_cls = jsonschema.Draft202012Validator if version == "3.1" else jsonschema.Draft4Validator
         for modes in mode_sets:
             del tapped[:]
@@ -468,6 +484,10 @@ def run_shard(spec, emit):
                 if is_negative != expected_negative:
                     which = "negative-without-negative-part" if is_negative else "positive-with-negative-part"
                     emit.viol(f"C03/case-label-{which}", f"case mode {meta.generation.mode.value}, parts { {k.value: v.mode.value for k, v in meta.components.items()} }, description {data.description!r}", context)
+                if special and data.description.startswith("Unspecified HTTP method"):
+                    emit.count("unspecified_method_cases")
+                    if case.method.upper() in documented:
+                        emit.viol("C03/documented-method-labelled-unspecified", f"{case.method} is documented ({sorted(documented)}) but the case says {data.description!r}", context)
                 if special:
                     continue
                 # component label vs content (body: JSON as is; other parts: through string coercion)
